@@ -181,8 +181,8 @@ E20L = _o('oracle: TreeDiff+BlobCache, language filter (known finding stream D10
 E20S = _o('oracle: TreeDiff+BlobCache, submodule in the first commit (known finding stream D15)', 'e20', 300, 20000,
           'submodule entries allowed in the first commit; failures accepted only in the class submodule-in-first-commit', ['none-sub0'])
 
-E10 = dict(name='oracle: every subset of the registered leaves, features on/off (deploy closure, success, order)', probe='e10',
-           fam=None, quick=0, thorough=0, exhaustive=True, shards={'quick': 1, 'thorough': 1}, nontrivial=nt_any,
+E10 = dict(name='every subset of the registered leaves, features on/off (deploy closure, success, order through the Lean checker)', probe='e10',
+           fam=['ts'], quick=0, thorough=0, exhaustive=True, shards={'quick': 1, 'thorough': 1}, nontrivial=nt_any,
            rule='all 2^n-1 subsets of the leaves registered in the current tree x features on/off: deployed set == closure of the '
                 'providers enabled at deployment time, initialisation succeeds iff no requirement is left without provider, '
                 'resolved order valid')
